@@ -524,6 +524,34 @@ class Runner:
         frames inside the checked components.  -> (where, text)"""
         pids = self.rank_pids(s)
         where, parts = "", []
+        # BEFORE any debugger touches them: kernel state and wait channel of
+        # every thread (T = stopped, S+futex_wait = blocked, R = running ...)
+        for pid in sorted(pids)[:4]:
+            th = []
+            try:
+                for tid in sorted(os.listdir("/proc/%d/task" % pid), key=int):
+                    try:
+                        st = open("/proc/%d/task/%s/stat" % (pid, tid)).read()
+                        state = st[st.rindex(")") + 2]
+                        wch = open("/proc/%d/task/%s/wchan" % (pid, tid)
+                                   ).read().strip() or "-"
+                        th.append("%s:%s:%s" % (tid, state, wch))
+                    except (OSError, ValueError):
+                        pass
+            except OSError:
+                pass
+            # only the interesting ones: first two threads (compute, network)
+            # and anything that is neither sleeping in a worker wait nor idle
+            parts.append("pid %d threads[tid:state:wchan] %s (+%d more)" % (
+                pid, " ".join(th[:3]), max(0, len(th) - 3)))
+        try:
+            mp = s.proc.pid
+            st = open("/proc/%d/stat" % mp).read()
+            parts.append("mpirun %d state %s wchan %s" % (
+                mp, st[st.rindex(")") + 2],
+                open("/proc/%d/wchan" % mp).read().strip() or "-"))
+        except (OSError, ValueError):
+            pass
         for pid in sorted(pids)[:4]:
             try:
                 r = subprocess.run(
